@@ -239,8 +239,15 @@ func (w *World) Head(l HeadLabel) []byte {
 	case "good":
 		msg = text + "\n" + w.sign(w.priv, text)
 	case "badsig":
-		// known key (name and key hash match), signature made with another key
-		msg = text + "\n" + w.sign(w.otherPriv, text)
+		// not signed by the configured key.  Two spellings of that (the specification knows one kind): even sizes carry the
+		// configured key's name and key hash over a signature made with another key; odd sizes carry only the signature
+		// of a key the client has never heard of (another name and key hash) - a well-formed note with no known signer
+		if l.N%2 == 0 {
+			msg = text + "\n" + w.sign(w.otherPriv, text)
+		} else {
+			sig := ed25519.Sign(w.otherPriv, []byte(text))
+			msg = text + "\n" + "— other.example/unknown-log " + base64.StdEncoding.EncodeToString(append([]byte{0x5a, 0x17, 0xc0, 0xde}, sig...)) + "\n"
+		}
 	default:
 		panic("head kind " + l.Kind)
 	}
